@@ -36,7 +36,9 @@ impl ProgramLines {
     }
 
     pub fn after(&self, line: u64) -> Option<u64> {
-        self.sorted_line_numbers.range(line + 1..).next().copied()
+        // The largest possible line number has no successor.
+        let next = line.checked_add(1)?;
+        self.sorted_line_numbers.range(next..).next().copied()
     }
 
     pub fn has(&self, line_number: u64) -> bool {
